@@ -160,4 +160,19 @@ AggViol(ev) == {V(0, 0 - 1, "aggregate", k) : k \in {x \in 1..4 : ev.result[x] #
 Emitted(N) == SeqSum([s \in Streams(N) |-> StreamCount(N.streams[s])])
 C53Viol(N) ==
   IF N.full /\ N.metrics.has /\ N.metrics.rows # Emitted(N) THEN {V(N.id, 0 - 1, "output_rows", 0)} ELSE {}
+\* EXPLAIN ANALYZE: the real AnalyzeExec run over the instrumented plan renders, for every node consumed in
+\* full, output_rows = the rows the observer above that node counted.   an[j] = [id, has, rv, emitted, full]
+AnalyzeViol(an) ==
+  {V(an[j].id, 0 - 1, "analyze_rows", 0) : j \in {x \in 1..Len(an) : an[x].full /\ an[x].has /\ an[x].rv # an[x].emitted}}
+
+\* spill metrics report the rows actually written to spill files.  A history of the spill API:
+\* sp.files[i] = [appended |-> <<rows of each appended batch>>, some |-> a file was produced, read_back |-> rows
+\* read back from that file]; sp.spilled_rows / sp.spill_count = SpillMetrics after the history.
+SpillViol(sp) ==
+  LET FS == 1..Len(sp.files)
+      written == SeqSum([i \in FS |-> IF sp.files[i].some THEN sp.files[i].read_back ELSE 0])
+      nfiles == Cardinality({i \in FS : sp.files[i].some}) IN
+  {V(0, i, "spill_file_rows", 0) : i \in {x \in FS : sp.files[x].some /\ sp.files[x].read_back # SeqSum(sp.files[x].appended)}}
+  \cup (IF sp.spilled_rows # written THEN {V(0, 0 - 1, "spilled_rows", 0)} ELSE {})
+  \cup (IF sp.spill_count # nfiles THEN {V(0, 0 - 1, "spill_count", 0)} ELSE {})
 =============================================================================
